@@ -26,8 +26,17 @@ def make_scenarios(ctx, n):
         for k in range(ctx.rng.randrange(2, 5)):
             t1["c"].setdefault(f"s{k}", {"k": "f", "data": gen.rand_bytes(ctx.rng, ctx.rng.choice([1, 2, 3, 5])).hex(),
                                           "mode": 0o644, "mtime": 10**18 + k})
-        out.append({"id": f"S{i}", "t0": t0, "o0": scen.small_opts(ctx.rng), "t1": t1,
-                    "o1": dict(scen.small_opts(ctx.rng), sfc=ctx.rng.choice([4, 16, 1 << 20]), mbs=ctx.rng.choice([3, 4, 8]))})
+        # duplicate contents: identical files that become separate blocks (each stored on its own, or each
+        # filling a combined block alone), so that a block's content recurs later in the same run
+        dup = gen.rand_bytes(ctx.rng, ctx.rng.choice([3, 4, 6]))
+        for k in range(ctx.rng.randrange(2, 4)):
+            t1["c"][f"dup{k}"] = {"k": "f", "data": dup.hex(), "mode": 0o600, "mtime": 10**18 + 100 + k}
+        o1 = dict(scen.small_opts(ctx.rng), sfc=ctx.rng.choice([4, 16, 1 << 20]), mbs=ctx.rng.choice([3, 4, 8]))
+        if i % 2 == 1:
+            o1 = dict(o1, sfc=ctx.rng.choice([0, 1, 2]), mbs=ctx.rng.choice([8, 64]))       # every file its own block
+        elif i % 4 == 2:
+            o1 = dict(o1, sfc=1 << 20, mbs=len(dup))                                       # each dup fills a combined block alone
+        out.append({"id": f"S{i}", "t0": t0, "o0": scen.small_opts(ctx.rng), "t1": t1, "o1": o1})
     return out
 
 
